@@ -8,6 +8,10 @@ TECH_A = "explicit TLA+ specification checked with TLC; every TLC-generated beha
 TECH_AB = TECH_A + "; traces recorded from the real code validated against a TLA+ trace specification with TLC"
 
 CLAIMS = {
+ "C03": dict(
+    text="LiquidText defines templates as item sequences with independent trim flags on every delimiter side, their source text and, declaratively, their output (a text segment loses exactly its maximal whitespace run towards a trimming delimiter; raw bodies verbatim; comments nothing and no effect); TLC enumerates the bounded template space and checks identity on plain text, that only whitespace is ever removed and that the grammar-shaped whitespace class refines the property's; every template is rendered by the real parser (with a probe that exposes side effects of comments) and compared byte for byte.",
+    note="bounded: whitespace runs <= 2 (quick) / 3 (thorough), inner padding 0..1 / 0..3, one or two markups per template; two defects found by this check were repaired (tab not whitespace; raw body ending in a trimming pseudo-tag).",
+    tech=TECH_A, ref="DESIGN.md 7 C03"),
  "C04": dict(
     text="TLC enumerates every program up to the node bound over a scoping alphabet that reuses the same names as caller data, assigned/captured variables, loop variables, counters and include arguments, runs each on the LiquidInterp machine checking innermost-binding-wins, precedence, data-untouched, global-written-only-by-assign/capture and clean unwinding in every state, and the harness renders every program on the real parser and compares output or error.",
     note="bounded: <=3 nodes (quick), <=4 nodes and 3 names (thorough); values are short ASCII strings and small integers; the AST-to-source printer of the harness is trusted.",
